@@ -1,4 +1,6 @@
 import AffVerif.Judge.C16
+import AffVerif.Judge.C12
+import AffVerif.Judge.C13
 /-! The judge: reads one case per line on stdin, prints one verdict per line. -/
 open AV AV.Judge
 
@@ -9,6 +11,12 @@ def judgeLine (line : String) : String :=
     let kind ← tok
     match kind with
     | "C16" => judgeC16
+    | "C12" => judgeC12
+    | "PANIC" => do
+      let k ← tok; let _ ← tok; let _ ← tok
+      let msg ← (do if (← atEnd) then pure "" else tok)
+      pure (.propfail s!"the crate panicked on a call the generator considers valid (kind {k}): {msg}")
+    | "C13" => judgeC13
     | _ => throw s!"unknown case kind '{kind}'"
   match p.run' toks with
   | .ok (v, tags) => if tags.isEmpty then v.render else v.render ++ " ## " ++ " ".intercalate tags.toList
